@@ -910,6 +910,16 @@ def lockstep(ops, ctx, nproj=2, check_handles=True, stop_at_first=True):
                             # remove() empties the document object of the removing handle; a shallow copy that
                             # shares that object holds no stale data (outside the class of F-5c)
                             doc_clean.add(name)
+                # Job._initialize_lazy_properties: a re-key drops the document object of every job of the group, a
+                # move that of the moving handle, a remove that of the removing handle (the next use builds a new one)
+                if k == "move" or (k == "remove" and old[1] in pm_before[old[0]]):
+                    doc_obj.pop(op[1], None)
+                    doc_touched.discard(op[1])
+                elif (pre["p"], ref_id(pre["sp"])) != (pm.h[op[1]]["p"], ref_id(pm.h[op[1]]["sp"])) if op[1] in pm.h else False:
+                    for name, hd in pm.h.items():
+                        if hd["g"] == pre["g"]:
+                            doc_obj.pop(name, None)
+                            doc_touched.discard(name)
                 cur = pm.h.get(op[1])
                 if cur is not None and (cur["p"], ref_id(cur["sp"])) != old:
                     # peers of the group that did not follow a move are stale as well
